@@ -1,7 +1,7 @@
 """C01 - no input crashes / corrupts memory: memory-safety clauses decidable from the code shape."""
 from ..report import Check
 from ..callgraph import CallGraph
-from ..rules import stack
+from ..rules import stack, nullness, progress
 
 CONFIGS = [("doc", "UTAP::DocumentBuilder"), ("query", "UTAP::TigaPropertyBuilder")]
 
@@ -17,6 +17,8 @@ def run(F, G, tier, seed):
             "class": cls, "productions": len(G.rules), "call_sites": sum(len(r.calls) for r in G.rules),
             "callback_summaries": len(T.I.cache), "fixpoint_rounds": T.rounds, "initial_depths": T.init,
             "grammar_counter": T.g}
+    nullness.run(chk, F, CG)
+    progress.run(chk, F, CG)
     chk.assume("functions without a body in the facts (libstdc++, libxml2, libc) raise no UTAP::TypeException")
     chk.assume("bison error recovery only discards grammar symbols whose actions already ran (yacc semantics)")
     return chk.finish(
